@@ -32,7 +32,11 @@ def main():
     ap.add_argument("--tier", default="quick")
     ap.add_argument("--no-suite", action="store_true")
     ap.add_argument("--prop")
+    ap.add_argument("--harvest", action="store_true",
+                    help="store up to two shrunk witnesses as replays/<prop>/seeded-<id>-*.json (they must fail on the "
+                         "patched tree and pass on /repo)")
     a = ap.parse_args()
+    a.src = os.path.abspath(a.src)
     prop = a.prop or a.sid.split("-")[0]
     scratch = "/tmp/seedchk-%s" % a.sid
     sh("git -C /repo worktree remove --force %s" % scratch)
@@ -69,13 +73,36 @@ def main():
             lost = [n for n in base["stable_pass"] if not ok.get(n)]
             res["suite_stable_lost"] = lost
             os.remove(xml)
-        env2 = dict(os.environ, ARTAP_ROOT=scratch, PBT_NO_EVIDENCE="1", VERIF_SEED=os.environ.get("VERIF_SEED", "1"))
+        found = "/tmp/seedfound-%s" % a.sid
+        shutil.rmtree(found, ignore_errors=True)
+        env2 = dict(os.environ, ARTAP_ROOT=scratch, PBT_NO_EVIDENCE="1", VERIF_SEED=os.environ.get("VERIF_SEED", "1"),
+                    PBT_FOUND=found)
         rc = sh([PY, os.path.join(VERIF, "pbt", "run.py"), prop, "--tier", a.tier], env=env2, cwd=VERIF, timeout=7200)
         res["check_tier"] = a.tier
         res["check_exit"] = rc.returncode
         res["check_violations"] = [l.strip()[:400] for l in rc.stdout.splitlines()
                                    if l.startswith("  ") and "[" in l and "n=" not in l[:40]][:6]
         res["check_harness"] = [l[:300] for l in rc.stdout.splitlines() if l.startswith("HARNESS")][:3]
+        if a.harvest:
+            import glob
+            kept = 0
+            for f in sorted(glob.glob(os.path.join(found, prop, "*.json")), key=os.path.getsize):
+                if kept >= 2:
+                    break
+                if os.path.getsize(f) > 20000:
+                    continue
+                rp = sh([PY, os.path.join(VERIF, "pbt", "run.py"), prop, "--replay", f], env=env2, cwd=VERIF, timeout=900)
+                rcn = sh([PY, os.path.join(VERIF, "pbt", "run.py"), prop, "--replay", f],
+                         env=dict(os.environ, ARTAP_ROOT="/repo"), cwd=VERIF, timeout=900)
+                if rp.returncode == 1 and rcn.returncode == 0:
+                    dst = os.path.join(VERIF, "replays", prop)
+                    os.makedirs(dst, exist_ok=True)
+                    rec = json.load(open(f))
+                    rec["note"] = "witness of seeded change %s (fails there, passes on the repository tree)" % a.sid
+                    json.dump(rec, open(os.path.join(dst, "seeded-%s-%d.json" % (a.sid, kept)), "w"), indent=1)
+                    kept += 1
+            res["replays_harvested"] = kept
+        shutil.rmtree(found, ignore_errors=True)
     finally:
         sh("git -C /repo worktree remove --force %s" % scratch)
         shutil.rmtree(scratch, ignore_errors=True)
@@ -85,7 +112,7 @@ def main():
     res["confirmed"] = bool(confirmed)
     res["caught"] = res.get("check_exit") == 1
     print(json.dumps(res, indent=1))
-    if confirmed:
+    if confirmed and not a.src.startswith(os.path.join(VERIF, "seeded")):
         dst = os.path.join(VERIF, "seeded", a.sid)
         os.makedirs(dst, exist_ok=True)
         shutil.copy(patch, os.path.join(dst, "patch.diff"))
